@@ -1238,7 +1238,7 @@ func TestC15(t *testing.T) {
 	tcpOptions()
 	dns()
 	run.Sample(map[string]interface{}{"checksum": "len 5 all-ones initial 0xffff", "got": header.Checksum([]byte{255, 255, 255, 255, 255}, 0xffff), "reference": rfc.Sum16([]byte{255, 255, 255, 255, 255}, 0xffff)})
-	code := run.Finish("Checksum: every length 0..checksum_max_len x {zero, ones, alternating x2, PRNG x2} x initial values (all 2^16 for len<=64; boundaries+PRNG beyond), with complemented-sum verification and chained-chunk identity; ChecksumCombine: all 2^32 pairs; every header: each field of <=16 bits swept exhaustively (other fields PRNG), 32-bit fields at boundaries+PRNG, both directions (repo Encode -> independent decode; independent encode -> repo getters); TCP options: every sequence of up to N options over {MSS, WS, TS, SACK-permitted, SACK(0..4 blocks), NOP, unknown} through both encoders and both parsers, hostile/truncated/random option bytes of every length 0..60. distinct = distinct (header, field, value) / (length) / (option sequence) classes",
+	code := run.Finish("Checksum: every length 0..checksum_max_len x {zero, ones, alternating x2, PRNG x2} x initial values (all 2^16 for len<=64; boundaries+PRNG beyond), with complemented-sum verification and chained-chunk identity; ChecksumCombine: all 2^32 pairs; every header: each field of <=16 bits swept exhaustively (other fields PRNG), 32-bit fields at boundaries+PRNG, both directions (repo Encode -> independent decode; independent encode -> repo getters); TCP options: every sequence of up to N options over {MSS, WS, TS, SACK-permitted, SACK(0..4 blocks), NOP, unknown} through both encoders and both parsers, hostile/truncated/random option bytes of every length 0..60. distinct = distinct (header, field, value) / (length) / (option sequence) classes Later additions: Pseudo-header sums for one address pair under several protocols in a row; TCP checksum helpers and pseudo-header sum called from eight goroutines at once, each result compared with the independent computation. EncodeSACKBlocks for 0-6 blocks into destinations of every length 0-50 with canary bytes behind.",
 		[]string{"independent decoder/encoder: h/rfc (imports nothing from /repo)", "a Go slice read beyond len panics, so 'never reads outside its input' is decided by 'no panic on an exact-length input' plus result-independence from trailing memory", "IPv4 FragmentOffset and IPv6 fragment offset are swept over their 13-bit domain; TCP flags byte over all 256 values"})
 	os.Exit(code)
 }
